@@ -11,18 +11,103 @@
    value i" (the reference for "leaves that attribute unchanged").
 3. Every observation is judged by TLC (tla/AnnotateTrace.tla = property layer of Annotate.tla).
    Python renders and projects only.
-"""
-import json, os, sys, time
 
-from ..common import Check, MachineryError, main_wrapper, NCPU
+Quick tier: ONE TLC process model-checks the configuration "quick" (stratified single-value space:
+every (declaration kind, direction, annotation) triple once, the variant rotating with the seed; the
+whole on-data space; seed-dependent lattice samples of the grid-shaped relational spaces), the ~10 k
+exported cases + 600 random callables are scanned by 16 processes, and ONE TLC process with 16 workers
+judges the observations slice by slice.  Thorough tier: nine whole spaces (~250 k cases) + 20 000 random
+callables, space by space.  A rejected observation is reported with signature (clause, class of the
+failing input as defined by Annotate!Deviation on the case alone, how it fails: not-reflected /
+unwarned / applied); class "none" = no known deviation class.
+
+The implementation-shaped layer models the CURRENT code (Dev = {}).  The five behaviours of earlier
+versions that broke the property (each repaired by a fix: commit, recorded as fixed in
+known_findings.json) are what-if switches: for each, a witness configuration Annotate_w_*.cfg switches
+it back on, TLC exhibits a case on which it breaks the property (a missing witness is a machinery
+failure), and that case is replayed on the real code with the others, where it has to be accepted.
+"""
+import concurrent.futures as cf
+import hashlib, json, math, os, sys, time
+
+from ..common import Check, MachineryError, main_wrapper, NCPU, parse_error_trace, tla_to_py
 from .. import c01lib as L
 
 PID = 'C01'
-# (config, sampling modulus in the quick tier; 1 = whole space)
-MC_QUICK = [('strat', 1), ('ondata', 1), ('lenret', 16), ('lenparam', 16), ('callbacks', 12)]
-MC_THOROUGH = [('single', 1), ('ondata', 1), ('lenret', 1), ('lenparam', 1), ('callbacks', 1),
-               ('pairsparam', 1), ('pairsret', 1), ('null3', 1), ('cont3', 1)]
-BATCH = 120          # cases per namespace (each case brings its variants: ~2-4 callables)
+# (case space of tla/AnnotateMC.tla, lattice modulus): the quick tier model-checks and replays a seed-dependent
+# lattice sample of the grid-shaped relational spaces (every value of every dimension keeps occurring) and the
+# stratified single-value space; the thorough tier takes every space whole
+MC_QUICK = ['quick']      # = strat + ondata + lattice samples lenret/8, lenparam/16, callbacks/8 in ONE TLC process
+MC_THOROUGH = ['witness', 'single', 'ondata', 'lenret', 'callbacks', 'null3', 'cont3', 'pairsret', 'pairsparam', 'lenparam']
+TLC_TIMEOUT = 9000   # seconds per TLC process (generous: the machine may be shared)
+BATCH = 120          # cases per namespace (each case brings its variants: ~2-4 callables, i.e. some 400 callables)
+# what-if switches of tla/Annotate.tla (behaviours of earlier versions, each repaired by a fix: commit) -> witness configuration
+WITNESS = {'not-optional': 'Annotate_w_not_optional.cfg', 'alias-pointer-not-a-pointer': 'Annotate_w_alias_pointer.cfg',
+           'nullable-on-enum-value': 'Annotate_w_enum_value.cfg', 'overridden-by-convention': 'Annotate_w_convention.cfg',
+           'closure-target-not-gpointer': 'Annotate_w_closure_target.cfg'}
+
+
+class PCheck(Check):
+    """Check whose TLC runs can overlap: model-checking runs are started ahead of time in threads (tlc_mc later picks
+    the finished run up and does the usual bookkeeping); batch verdicts are formed by one TLC process whose workers
+    each take slices of the batch."""
+
+    def __init__(self, *a, **kw):
+        Check.__init__(self, *a, **kw)
+        self._pre = {}
+        self._pool = None
+
+    @staticmethod
+    def _key(module, cfg, env):
+        return (module, cfg, tuple(sorted((env or {}).items())))
+
+    def prefetch(self, jobs, concurrency):
+        """jobs: [(module.tla, cfg, extra, env, timeout, workers)]"""
+        self._pool = cf.ThreadPoolExecutor(max_workers=concurrency)
+        for module, cfg, extra, env, timeout, workers in jobs:
+            self._pre[self._key(module, cfg, env)] = self._pool.submit(Check._tlc, self, module, cfg, extra, env, timeout, workers)
+
+    def _tlc(self, module, cfg, extra, env, timeout, workers):
+        fut = self._pre.pop(self._key(module, cfg, env), None)
+        if fut is not None:
+            return fut.result()
+        return Check._tlc(self, module, cfg, extra, env, timeout, workers)
+
+    def tlc_verdict_par(self, module, obs, env, jobs, timeout=None):
+        """tlc_verdict for a trace spec that takes the batch in slices (tla/AnnotateTrace.tla): ONE TLC process, `jobs`
+        workers, slice k read from TRACE_FILE.k and judged into VERDICT_FILE.k (same checks, same bookkeeping)."""
+        if not obs:
+            return [], {}
+        timeout = timeout or TLC_TIMEOUT
+        nsl = max(1, min(4 * jobs, int(math.ceil(len(obs) / 150.0))))
+        size = int(math.ceil(len(obs) / float(nsl)))
+        parts = [obs[k:k + size] for k in range(0, len(obs), size)]
+        self._vrun = getattr(self, '_vrun', 0) + 1
+        tf = os.path.join(self.tmp, 'obs-%s-%d.json' % (module, self._vrun))
+        vf = os.path.join(self.tmp, 'verdict-%s-%d.json' % (module, self._vrun))
+        for k, part in enumerate(parts, 1):
+            with open('%s.%d' % (tf, k), 'w') as f:
+                json.dump(part, f)
+        e = dict(env or {})
+        e.update(TRACE_FILE=tf, VERDICT_FILE=vf, C01_SLICES=str(len(parts)))
+        r = Check._tlc(self, module + '.tla', module + '.cfg', [], e, timeout, max(1, min(jobs, len(parts))))
+        rejected, exercised = [], {}
+        for k, part in enumerate(parts, 1):
+            if not os.path.exists('%s.%d' % (vf, k)):
+                raise MachineryError('trace spec %s produced no verdict on slice %d:\n%s' % (module, k, r['out'][-3000:]))
+            v = json.load(open('%s.%d' % (vf, k)))
+            if v.get('n') != len(part):
+                raise MachineryError('trace spec %s consumed %s of %d records of slice %d' % (module, v.get('n'), len(part), k))
+            rejected += [tuple(x) for x in v.get('rejected', [])]
+            for c, cnt in v.get('exercised', {}).items():
+                exercised[c] = exercised.get(c, 0) + cnt
+            os.unlink('%s.%d' % (tf, k))
+            os.unlink('%s.%d' % (vf, k))
+        self.cov['traces_validated_against_impl'] += len(obs)
+        ev = self.cov.setdefault('clauses_exercised', {})
+        for c, cnt in exercised.items():
+            ev[c] = ev.get(c, 0) + cnt
+        return rejected, exercised
 
 
 # ------------------------------------------------------------------ variants
@@ -127,16 +212,14 @@ def crash_obs(case, text):
                 selfEmitted=False)
 
 
-def observe_all(cases, procs):
+def observe_all(cases, pool):
     batches = [cases[k:k + BATCH] for k in range(0, len(cases), BATCH)]
-    if procs <= 1 or len(batches) <= 1:
+    if pool is None or len(batches) <= 1:
         out = []
         for b in batches:
             out += observe_batch(b)
         return out
-    import multiprocessing as mp
-    with mp.get_context('fork').Pool(min(procs, len(batches))) as pool:
-        res = pool.map(observe_batch, batches, chunksize=1)
+    res = pool.map(observe_batch, batches, chunksize=1)
     return [o for part in res for o in part]
 
 
@@ -248,8 +331,24 @@ def random_case(rng, n):
 
 
 # ------------------------------------------------------------------ the check
+CORE = ['Transfer', 'TransferBad', 'Direction', 'DirectionTransfer', 'CallerAllocates', 'Nullable', 'NullableBad', 'NotNullable', 'Optional',
+        'OptionalBad', 'AllowNoneOut', 'AllowNonePointer', 'Skip', 'Attrs', 'Array', 'ArrayLengthIndex',
+        'ArrayLengthDirection', 'ElementType', 'ElementTypeBad', 'Type', 'Scope', 'ScopeBad', 'Closure', 'ClosureUserData',
+        'ClosureBad', 'Destroy', 'DestroyBad', 'ReturnOnlyParam', 'ReturnVoid']
+
+
+def load_cases(path, prefix):
+    out = []
+    with open(path) as f:
+        for k, line in enumerate(l for l in f if l.strip()):
+            c = json.loads(line)
+            c['id'] = '%s-%d' % (prefix, k)
+            out.append(L.normalize(c))
+    return out
+
+
 def run():
-    ck = Check(PID, 'model_checking')
+    ck = PCheck(PID, 'model_checking')
     a = ck.args
     ck.assumptions += [
         'giscanner._giscanner (C lexer) is stubbed; C declarations reach Transformer.parse() through harness/scan.py symgen '
@@ -262,77 +361,113 @@ def run():
         '(type T) / (element-type T) spellings are drawn from a fixed grammar (utf8, guint8, gint, filename, Foo.Rec, FooObj, '
         'GLib.List(utf8), unknown names), not arbitrary strings',
         'default typing of C declarations (tla/Annotate.tla PART 1) is an assumption of the model, re-validated on every observation (DRIFT)',
+        'callable kinds: functions, methods (instance parameter), callback typedefs, each with and without a trailing GError**; signals and '
+        'virtual methods go through the same MainTransformer._apply_annotations_callable path and are not rendered separately',
     ]
-    cases = []
+    state = dict(ndrift=0, seen=set(), exercised={}, scan_s=0.0, verdict_s=0.0, nobs=0)
+
+    def judge(cases, pool, jobs):
+        """3. run the real scanner on the cases  4. let TLC judge every observation"""
+        t = time.time()
+        obs = observe_all(cases, pool)
+        state['scan_s'] += time.time() - t
+        ck.count(len(obs))
+        state['nobs'] += len(obs)
+        by_id = {o['id']: o for o in obs}
+        slim = [dict(id=o['id'], case=o['case'], out=o['out'], warned=o['warned'], wo=o['wo'], retBare=o['retBare'],
+                     crashed=o['crashed']) for o in obs]
+        t = time.time()
+        rejected, exercised = ck.tlc_verdict_par('AnnotateTrace', slim, dict(C01_DRIFT='1'), jobs)
+        state['verdict_s'] += time.time() - t
+        for c, n in exercised.items():
+            state['exercised'][c] = state['exercised'].get(c, 0) + n
+        for oid, clause, detail in rejected:
+            o = by_id[oid]
+            if clause == 'DRIFT':
+                state['ndrift'] += 1
+                if state['ndrift'] <= 20:
+                    ck.notes.append('DRIFT %s %s: the implementation-shaped layer predicts another value (%s)' % (
+                        oid, detail, describe(o['case'])[:600]))
+                continue
+            vi, cls, how = (detail.split(':') + ['', ''])[:3]
+            sig = dict(clause=clause, cls=cls, how=how)
+            ck.violation(sig, 'case %s value %s: clause %s rejected (class %s, %s)\n%s\nobserved: %s\nwarned: %s' % (
+                oid, vi, clause, cls, how, describe(o['case']), json.dumps(o['out'][int(vi[1:])]), o['warned'][int(vi[1:])]),
+                dict(id=oid, case=o['case'], out=o['out'], warned=o['warned'], wo=o['wo']))
+        for o in obs:
+            c = o['case']
+            if any(v['ann'] != L.EMPTY_ANN for v in [c['ret']] + c['params']):
+                key = hashlib.sha1(json.dumps([c['kind'], c['throws'], c['ret'], c['params']], sort_keys=True).encode()).hexdigest()[:16]
+                if key not in state['seen']:
+                    state['seen'].add(key)
+                    ck.nontrivial(key)
+        for o in obs[:1]:
+            ck.sample(dict(id=o['id'], c=describe(o['case']), out=o['out'], warned=o['warned']))
+
     if a.replay:
         rp = json.load(open(a.replay))['replay']
-        cases = [L.normalize(rp['case'])]
+        judge([L.normalize(rp['case'])], None, 1)
     else:
-        # ---------------------------------------------------------- 1. model checking + case export
+        import multiprocessing as mp
         plan = MC_QUICK if ck.quick else MC_THOROUGH
-        for cfg, mod in plan:
-            cf = os.path.join(ck.tmp, 'cases-%s.ndjson' % cfg)
-            ck.tlc_mc('AnnotateMC', 'Annotate_%s.cfg' % cfg, coverage=False, workers=8, timeout=1700,
-                      env={'C01_CASES_FILE': cf, 'C01_SEED': str(ck.seed), 'C01_MOD': str(mod)},
-                      label='Impl => property layer on case space %s%s' % (cfg, '' if mod == 1 else ' (every %d-th case)' % mod))
-            k = 0
-            with open(cf) as f:
-                for line in f:
-                    if line.strip():
-                        c = json.loads(line)
-                        c['id'] = '%s-%d' % (cfg, k)
-                        cases.append(L.normalize(c))
-                        k += 1
-            os.unlink(cf)
+        nproc = min(NCPU, 16)
+        # worker processes first (fork before any thread exists), then the model-checking runs in the background
+        pool = mp.get_context('fork').Pool(nproc)
+        try:
+            jobs = []
+            for cfg in plan:
+                env = dict(C01_CASES_FILE=os.path.join(ck.tmp, 'cases-%s.ndjson' % cfg), C01_SEED=str(ck.seed))
+                jobs.append((cfg, env))
+            # TLC processes at a time / workers of each: the big run(s) plus the tiny witness searches alongside
+            if NCPU >= 8:
+                conc, wk = (1 + len(WITNESS), NCPU) if ck.quick else (3, NCPU // 2)
+            else:
+                conc, wk = (2 if NCPU >= 3 else 1), max(1, NCPU - 1)
+            ck.prefetch([('AnnotateMC.tla', 'Annotate_%s.cfg' % cfg, [], env, TLC_TIMEOUT, wk) for cfg, env in jobs] +
+                        [('AnnotateMC.tla', cfg, [], dict(C01_SEED=str(ck.seed)), TLC_TIMEOUT, 1) for cfg in WITNESS.values()], conc)
+            # ------------------------------------------------------ 2. random callables beyond the bound (while TLC works)
+            nrand = 600 if ck.quick else 20000
+            rand = [random_case(ck.rng, n) for n in range(nrand)]
+            if not ck.quick:
+                judge(rand, pool, nproc // 2)
+                rand = []
+            # ------------------------------------------------------ 1. model checking + export of exactly the cases TLC counted
+            pending = list(rand)
+            for cfg, env in jobs:
+                ck.tlc_mc('AnnotateMC', 'Annotate_%s.cfg' % cfg, coverage=False, workers=wk, timeout=TLC_TIMEOUT, env=env,
+                          label='Impl => property layer on case space %s' % cfg)
+                cases = load_cases(env['C01_CASES_FILE'], cfg)
+                os.unlink(env['C01_CASES_FILE'])
+                if ck.quick:
+                    pending += cases            # one scan + one round of verdicts for everything
+                else:
+                    judge(cases, pool, nproc)   # space by space (memory)
+            # ------------------------------------------------------ witnesses: an earlier behaviour switched back on in the
+            # implementation-shaped layer must break the property in the model; TLC's counterexample is replayed on the real code
+            for cls, cfg in sorted(WITNESS.items()):
+                r = ck.tlc_mc('AnnotateMC', cfg, coverage=False, workers=1, timeout=TLC_TIMEOUT, env=dict(C01_SEED=str(ck.seed)),
+                              expect_ok=False, label='witness search: what-if switch %s' % cls)
+                trace = parse_error_trace(r['out'])
+                if r.get('violated') != 'NoDeviation' or not trace or 'case' not in trace[0][1]:
+                    raise MachineryError('model has no witness for %s: %s' % (cls, (r.get('error') or r['out'][-1500:])))
+                c = tla_to_py(trace[0][1]['case'])
+                c['id'] = 'witness-%s' % cls
+                pending.append(L.normalize(c))
+                ck.notes.append('witness %s: %s' % (cls, describe(pending[-1])))
+            if pending:
+                judge(pending, pool, nproc)
+        finally:
+            pool.terminate()
+            if ck._pool is not None:
+                ck._pool.shutdown(wait=False)
         ck.cov['exhaustive'] = True
-        # ---------------------------------------------------------- 2. random callables beyond the bound
-        nrand = 500 if ck.quick else 20000
-        for n in range(nrand):
-            cases.append(random_case(ck.rng, n))
-
-    # -------------------------------------------------------------- 3. run the real scanner
-    t = time.time()
-    obs = observe_all(cases, 1 if a.replay else min(NCPU, 8))
-    ck.notes.append('scanned %d cases in %.1fs' % (len(cases), time.time() - t))
-    ck.count(len(obs))
-    by_id = {o['id']: o for o in obs}
-
-    # -------------------------------------------------------------- 4. verdicts by TLC
-    slim = [dict(id=o['id'], case=o['case'], out=o['out'], warned=o['warned'], wo=o['wo'], retBare=o['retBare'],
-                 crashed=o['crashed']) for o in obs]
-    rejected, exercised = ck.tlc_verdict('AnnotateTrace', slim, env={'C01_DRIFT': '1'}, chunk=6000, timeout=1700)
-    ndrift = 0
-    for oid, clause, detail in rejected:
-        o = by_id[oid]
-        if clause == 'DRIFT':
-            ndrift += 1
-            if ndrift <= 20:
-                ck.notes.append('DRIFT %s %s: the implementation-shaped layer predicts another value (%s)' % (
-                    oid, detail, json.dumps(o['case'])[:600]))
-            continue
-        vi, _, cls = detail.partition(':')
-        sig = dict(clause=clause, cls=cls)
-        ck.violation(sig, 'case %s value %s: clause %s rejected (class %s)\n%s\nobserved: %s\nwarned: %s' % (
-            oid, vi, clause, cls, describe(o['case']), json.dumps(o['out'][int(vi[1:])]), o['warned'][int(vi[1:])]),
-            dict(id=oid, case=o['case'], out=o['out'], warned=o['warned'], wo=o['wo']))
-    ck.cov['drifted_observations'] = ndrift
+    ck.notes.append('scanned %d cases in %.1fs, verdicts in %.1fs' % (state['nobs'], state['scan_s'], state['verdict_s']))
+    ck.cov['drifted_observations'] = state['ndrift']
     ck.cov['rule'] = ('an observation = one callable scanned by the real pipeline (+ its without-annotation variants); '
                       'non-trivial = at least one value carries an annotation; distinct by abstract case')
-    seen = set()
-    for o in obs:
-        c = o['case']
-        if any(v['ann'] != L.EMPTY_ANN for v in [c['ret']] + c['params']):
-            key = json.dumps([c['kind'], c['throws'], c['ret'], c['params']], sort_keys=True)
-            if key not in seen:
-                seen.add(key)
-                ck.nontrivial(hash(key))
-    for o in obs[:1] + obs[-1:]:
-        ck.sample(dict(id=o['id'], c=describe(o['case']), out=o['out'], warned=o['warned']))
-    core = ['Transfer', 'TransferBad', 'Direction', 'Nullable', 'NullableBad', 'Optional', 'OptionalBad', 'Skip', 'Array',
-            'ArrayLengthIndex', 'ArrayLengthDirection', 'ElementType', 'Type', 'Scope', 'ScopeBad', 'Closure', 'Destroy', 'Attrs']
     if not a.replay:
-        for c in core:
-            if not exercised.get(c):
+        for c in CORE:
+            if not state['exercised'].get(c):
                 ck.notes.append('VACUOUS: clause %s was never exercised' % c)
                 if not ck.quick:
                     raise MachineryError('core clause %s never exercised' % c)
